@@ -19,7 +19,7 @@ var urlVals = []string{"/%2fa@^@", "http:/%2fa@^@", "/%2f::^@", "/%2Fa@b^@/c", "
 	"http:\\\\evil.com", "a/b:c", "%6aavascript:x", "?q=<b>", "http://é.com/é?é#é", "", " ", "http://x/%zz", "http://example.org/ok/1", "https://example.org/no", "HTTP://EXAMPLE.ORG/ok",
 	"http://x/?a=1&b=2;c=3", "http://x/?<x>=1", "http://user:pw@h:80/p", "sftp://h/", "tels:1",
 	" http://example.com/x", "http://example.com/y ", "http://example.com/z\n", "\thttps://example.org/ok/t", "data:image/png;base64,iVBO\nRw0KGgo=", " /rel/padded ", "\u00a0http://example.com/nbsp",
-	"/%2Fevil.com\"", "/%2fevil.com/\u00e9", "/%2F%2Fx\"y", "%2F/x'", "/a/..%2F%2Fb<", "data:\u023a \u023a;base64,A", "DATA:image/png;base64,iVBO\nRw0KGgo=", "DATA:image/png;base64,iVBORw0K GgoAAAAN", "Data:image/png;base64,iVBO Rw0K\tGgo=", "data:image/png;base64,iVBO Rw0KGgo=", "data:\u023e\t;base64,", "http://example.com/?a=1&region=eu&copy=2", "http://example.com/?q=a\u3000#", "data:image/gif;base64,R0lGODlh #", "%2f/x", "/a%2f..%2fb", "http://example.com/a b#", "http://example.com/#\u00a0", "http://example.com/? #", "/x?y= #"}
+	"/%2Fevil.com\"", "/%2fevil.com/\u00e9", "/%2F%2Fx\"y", "%2F/x'", "/a/..%2F%2Fb<", "data:\u023a \u023a;base64,A", "DATA:image/png;base64,iVBO\nRw0KGgo=", "DATA:image/png;base64,iVBORw0K GgoAAAAN", "Data:image/png;base64,iVBO Rw0K\tGgo=", "data:image/png;base64,iVBO Rw0KGgo=", "data:\u023e\t;base64,", "http://example.com/?a=1&region=eu&copy=2", "http://example.com/?q=a\u3000#", "data:image/gif;base64,R0lGODlh #", "mailto:a@b.c\u00a0#", "tel:+123456\u3000#", "mailto:someone@example.com\u2003#", "%2f/x", "/a%2f..%2fb", "http://example.com/a b#", "http://example.com/#\u00a0", "http://example.com/? #", "/x?y= #"}
 
 var otherVals = []string{"", "1", "42", "50%", "rtl", "en", "a b", "nofollow", "noopener noreferrer", "_blank", "_self", "anonymous", "use-credentials", "allow-scripts allow-forms",
 	"allow-scripts allow-scripts x", "Hello, world!", "a<b", "a\"b", "a'b", "a&amp;b", "x y z", "abc", "ABC", "open", "1997-07-16", "left", "color: red", "color:red;background:url(javascript:x)",
